@@ -35,7 +35,7 @@ Proof.
   all: try (unfold mkun; repeat match goal with |- context [if ?x then _ else _] => destruct x end;
             cbn [known]; auto; fail).
   all: try (match goal with E : String.eqb _ _ = true |- _ => apply String.eqb_eq in E; rewrite E end).
-  all: try (destruct a; try discriminate;
+  all: try (destruct a; try discriminate; rewrite ?EG;
             try match goal with E : (_ =? _)%Z = true |- _ => apply Z.eqb_eq in E; rewrite E end;
             unfold offset_key; cbn [Z.eqb Z.ltb Z.compare Pos.compare known]; rewrite ?H0; reflexivity).
   all: rewrite ?ER, ?ES, ?ESub; cbn [known knownb call2 call3 String.eqb Ascii.eqb Bool.eqb];
@@ -73,3 +73,23 @@ with uwfb (bs : ubranches) : bool :=
   | UBWhen c v r => uwf c && uwf v && uwfb r
   end.
 
+
+(** ---- the full-strength statement and how a concrete tree refutes it ------------------------------------ *)
+Definition full_for (c : cfg) : Prop :=
+  forall t, uwf t = true ->
+    exists e, reparse (print (build c t)) = ROk e [] /\ known e = true /\
+              forall en, udom en t = true -> seval en e = ueval en t.
+
+(** decidable: on row [en] the emitted text of [t] is rejected by the grammar, calls an unknown function,
+    or evaluates to something else than PySpark's value *)
+Definition bad (c : cfg) (en : env) (t : uexpr) : bool :=
+  match reparse (print (build c t)) with
+  | ROk e [] => negb (known e) || negb (val_eqb (seval en e) (ueval en t))
+  | _ => true
+  end.
+
+Lemma bad_refutes c t en : uwf t = true -> udom en t = true -> bad c en t = true -> ~ full_for c.
+Proof.
+  intros W D B F. destruct (F t W) as (e & R & K & V). unfold bad in B. rewrite R, K in B.
+  rewrite (V en D), val_eqb_refl in B. discriminate.
+Qed.
